@@ -36,7 +36,7 @@ def prepare(spec):
         for s in seqs:
             datas.append(tok_bytes(g, s))
         for s in seqs[:: max(1, len(seqs) // max(1, cfg.get('n_ws', 20)))]:
-            datas.append(tok_bytes(g, s, rnd, ws=0.4))
+            datas.append(tok_bytes(g, s, rnd, ws=cfg.get('ws', 0.4)))
         # a few raw byte strings with foreign characters
         for _ in range(cfg.get('n_raw', 8)):
             alph = ''.join(t.text for t in g.terms) + ' \n?Z\x00\xff'
@@ -60,7 +60,7 @@ def _worker(spec):
     gs, tbs, inputs = prepare(spec)
     modes = cfg['modes']
     src = eg.emit_tu(gs, runtime_ctor=set(spec.get('runtime_ctor', ())))
-    exe = common.build(src, spec.get('flavour', 'clang'))
+    exe = common.build(src, spec.get('flavour', 'clang'), extra=eg.mode_defines(modes))
     jobs = []
     for gi in range(len(gs)): jobs.append(('D', gi))
     rc0, recs0, dumps, meta0, err0 = eg.run_jobs(exe, jobs, timeout=300)
@@ -72,7 +72,8 @@ def _worker(spec):
     diags = {}; maps = {}; tdiffs = {}
     for gi, g in enumerate(gs):
         d = dg.parse_diag(dumps[gi]['diag']); diags[gi] = d
-        m, diffs = model.match_tables(g, tbs[gi], d)
+        dp = dg.parse_dump(dumps[gi]['dump']) if 'dump' in dumps[gi] else None
+        m, diffs = model.match_tables(g, tbs[gi], d, dp)
         maps[gi] = m; tdiffs[gi] = diffs
     # which grammars can be parsed
     jobs = []
@@ -132,4 +133,313 @@ def judge_c01(spec, gs, tbs, inputs, diags, dumps, maps, tdiffs, byk, jobs, info
         if len(out['samples']) < 2 and inputs[gi]:
             out['samples'].append({'grammar': g.text(), 'inputs': len(inputs[gi]), 'accepted': acc, 'example_input': inputs[gi][-1].decode('latin-1')})
 
-JUDGES = {'C01': judge_c01}
+
+def parseable(gi, gs, tbs, diags, tdiffs, need_match=True, lr1_only=False):
+    tb = tbs[gi]
+    if gg.classify(tb) in ('rr', 'acc') or diags[gi].has_rr: return False
+    if lr1_only and (not tb.lr1 or not diag_conflict_free(diags[gi])): return False
+    if need_match and tdiffs[gi]: return False
+    return True
+
+def viol(out, g, data, mode, summary, extra_keys=(), **rep):
+    rep.update({'grammar': g.to_json(), 'input': data.hex() if data is not None else None, 'mode': mode})
+    keys = ([case_key(g, data, mode)] if data is not None else ['input:' + g.key()]) + list(extra_keys)
+    out['viol'].append((keys, ('grammar %s input %r mode %s: ' % (g.text(), data, mode)) + summary, rep))
+
+_COPYEV = re.compile(r'C-?\d+;')
+
+def judge_c02(spec, gs, tbs, inputs, diags, dumps, maps, tdiffs, byk, jobs, info, out):
+    C = out['counts']
+    crash_check('C02', gs, jobs, byk, info, out, 'site:parse@crash')
+    for gi, g in enumerate(gs):
+        C['grammars'] += 1
+        if not parseable(gi, gs, tbs, diags, tdiffs): C['grammars_skipped'] += 1; continue
+        tb = tbs[gi]
+        for idx, data in enumerate(inputs[gi]):
+            r = byk.get((gi, idx, 0))
+            if r is None: continue
+            ex = model.expect(g, tb, data)
+            if ex.res.hang: continue
+            C['evaluations'] += 1
+            if (r.res == 1) != ex.ok: C['acceptance_disagreements_left_to_C01'] += 1; continue
+            got = model.mask_positions(_COPYEV.sub('', r.events)); want = model.mask_positions(ex.events)
+            C['functor_calls_observed'] += got.count(';')
+            if ex.ok:
+                C['accepted'] += 1
+                if len(ex.res.reductions) >= 3: out['distinct'].append(common.sha(g.key(), data)[:12])
+            if got != want:
+                viol(out, g, data, 0, 'functor call log differs from bottom-up evaluation of the derivation tree: observed %s expected %s' % (got[:300], want[:300]), observed=got, expected=want)
+            elif ex.ok and r.root != ex.root:
+                viol(out, g, data, 0, 'returned root value id %s, expected %s (last reduction of the root)' % (r.root, ex.root))
+        if len(out['samples']) < 2 and inputs[gi]:
+            d = next((d for d in inputs[gi] if model.expect(g, tb, d).ok and len(d) > 3), inputs[gi][0])
+            out['samples'].append({'grammar': g.text(), 'vtypes': g.vtypes, 'input': d.decode('latin-1'), 'expected_log': model.expect(g, tb, d).events[:400]})
+
+def judge_c09(spec, gs, tbs, inputs, diags, dumps, maps, tdiffs, byk, jobs, info, out):
+    C = out['counts']
+    crash_check('C09', gs, jobs, byk, info, out, 'site:parse@crash')
+    for gi, g in enumerate(gs):
+        C['grammars'] += 1
+        if g.has_error() or not parseable(gi, gs, tbs, diags, tdiffs, lr1_only=True): C['grammars_skipped'] += 1; continue
+        tb = tbs[gi]
+        for idx, data in enumerate(inputs[gi]):
+            ex = None
+            for mode in (0, 4):
+                r = byk.get((gi, idx, mode))
+                if r is None: continue
+                if ex is None: ex = model.expect(g, tb, data)
+                C['evaluations'] += 1
+                if (r.res == 1) != ex.ok: C['acceptance_disagreements_left_to_C01'] += 1; continue
+                kind = 'accepted' if ex.ok else ('lexical' if ex.res.lexerr is not None else 'syntax')
+                C['inputs_' + kind] += 1
+                if not ex.ok: out['distinct'].append(common.sha(g.key(), data)[:12])
+                if r.stream != ex.stream:
+                    viol(out, g, data, mode, '%s input: stream text %r, expected %r' % (kind, r.stream[:200], ex.stream[:200]), observed=r.stream, expected=ex.stream)
+                if mode == 4 and kind == 'syntax' and ex.res.errors:
+                    p = ex.res.errors[0]
+                    if p < len(ex.lex.toks):
+                        limit = ex.lex.toks[p][1] + ex.lex.toks[p][2]      # one look-ahead byte after the offending lexeme
+                        C['lookahead_bounds_checked'] += 1
+                        if r.cb[5] > limit:
+                            viol(out, g, data, mode, 'input examined up to offset %d although the offending term ends at %d' % (r.cb[5], limit))
+        if len(out['samples']) < 2 and inputs[gi]:
+            for d in inputs[gi]:
+                e = model.expect(g, tb, d)
+                if not e.ok and len(d) > 2:
+                    out['samples'].append({'grammar': g.text(), 'input': d.decode('latin-1'), 'expected_stream': e.stream}); break
+
+def judge_c10(spec, gs, tbs, inputs, diags, dumps, maps, tdiffs, byk, jobs, info, out):
+    C = out['counts']
+    crash_check('C10', gs, jobs, byk, info, out, 'site:parse@crash')
+    OPT = {0: (True, True), 7: (False, True), 8: (True, False), 9: (False, False)}
+    for gi, g in enumerate(gs):
+        C['grammars'] += 1
+        if not parseable(gi, gs, tbs, diags, tdiffs): C['grammars_skipped'] += 1; continue
+        tb = tbs[gi]
+        for idx, data in enumerate(inputs[gi]):
+            for mode, (sw, sn) in OPT.items():
+                r = byk.get((gi, idx, mode))
+                if r is None: continue
+                ex = model.expect(g, tb, data, skip_ws=sw, skip_nl=sn)
+                if ex.res.hang: continue
+                C['evaluations'] += 1
+                if (r.res == 1) != ex.ok or model.mask_positions(_COPYEV.sub('', r.events)) != model.mask_positions(ex.events):
+                    C['non_position_disagreements_left_to_C01_C02_C04'] += 1; continue
+                gp = model.positions(r.events); wp = model.positions(ex.events)
+                C['term_positions_observed'] += len(gp)
+                if any(l > 1 for _, l, _ in wp): out['distinct'].append(common.sha(g.key(), data, str(mode))[:12])
+                if gp != wp:
+                    k = next(i for i in range(min(len(gp), len(wp))) if gp[i] != wp[i]) if len(gp) == len(wp) else -1
+                    viol(out, g, data, mode, 'source points differ: observed %s expected %s' % (gp[k] if k >= 0 else gp[:5], wp[k] if k >= 0 else wp[:5]))
+                gm = re.findall(r'(?m)^\[(\d+):(\d+)\]', r.stream); wm = re.findall(r'(?m)^\[(\d+):(\d+)\]', ex.stream)
+                C['message_positions_observed'] += len(gm)
+                if gm != wm:
+                    viol(out, g, data, mode, 'message positions differ: observed %s expected %s' % (gm[:4], wm[:4]))
+        if len(out['samples']) < 2 and inputs[gi]:
+            d = max(inputs[gi], key=lambda d: d.count(b'\n'))
+            out['samples'].append({'grammar': g.text(), 'input': d.decode('latin-1'), 'expected_positions': model.positions(model.expect(g, tb, d).events)[:8]})
+
+_ARGID = re.compile(r'v(-?\d+)[,&]')
+def judge_c14(spec, gs, tbs, inputs, diags, dumps, maps, tdiffs, byk, jobs, info, out):
+    C = out['counts']
+    crash_check('C14', gs, jobs, byk, info, out, 'site:parse@crash')
+    for gi, g in enumerate(gs):
+        C['grammars'] += 1
+        if not parseable(gi, gs, tbs, diags, tdiffs): C['grammars_skipped'] += 1; continue
+        tb = tbs[gi]
+        for idx, data in enumerate(inputs[gi]):
+            r = byk.get((gi, idx, 0))
+            if r is None: continue
+            C['evaluations'] += 1
+            nvals = r.events.count('=')
+            C['values_tracked'] += nvals
+            path = 'success' if r.res == 1 else ('recovery' if '] PARSE: Syntax error' in r.stream and g.has_error() else 'failure')
+            C['runs_' + path] += 1
+            if nvals >= 2: out['distinct'].append(common.sha(g.key(), data)[:12])
+            ids = _ARGID.findall(r.events)
+            probs = []
+            if r.objs_alive != 0: probs.append('%d tracked objects not destroyed after the parse' % r.objs_alive)
+            if r.payload_live != 0: probs.append('%d values still owned after the result was dropped (leak or double release)' % r.payload_live)
+            if r.copies != 0 or 'C' in r.events: probs.append('%d copies of semantic values made by the library' % r.copies)
+            if any(i.startswith('-') for i in ids): probs.append('a moved-from value was handed to a functor')
+            if '&' in r.events: probs.append('a value was handed to a functor as a non-movable reference')
+            if len(set(ids)) != len(ids): probs.append('a value was consumed by two functor calls')
+            if probs:
+                viol(out, g, data, 0, '; '.join(probs) + ' (log %s)' % r.events[:300], observed=r.events)
+        if len(out['samples']) < 2 and inputs[gi]:
+            r = byk.get((gi, len(inputs[gi]) - 1, 0))
+            if r: out['samples'].append({'grammar': g.text(), 'vtypes': g.vtypes, 'input': inputs[gi][-1].decode('latin-1'), 'log': r.events[:300], 'objs_alive': r.objs_alive, 'copies': r.copies})
+
+def lines_subsequence(short, long):
+    it = iter(long.split('\n'))
+    return all(any(l == m for m in it) for l in short.split('\n') if l)
+
+def judge_c16(spec, gs, tbs, inputs, diags, dumps, maps, tdiffs, byk, jobs, info, out):
+    C = out['counts']
+    crash_check('C16', gs, jobs, byk, info, out, 'site:parse@crash')
+    for gi, g in enumerate(gs):
+        C['grammars'] += 1
+        if not parseable(gi, gs, tbs, diags, tdiffs) or maps[gi] is None: C['grammars_skipped'] += 1; continue
+        tb = tbs[gi]
+        inv = {v: k for k, v in maps[gi].items()}
+        for idx, data in enumerate(inputs[gi]):
+            rs = {m: byk.get((gi, idx, m)) for m in (0, 1, 2, 5, 6)}
+            if any(v is None for v in rs.values()): continue
+            C['evaluations'] += 1
+            base = rs[0]
+            for m in (1, 2, 5, 6):
+                r = rs[m]
+                if (r.res, r.root, r.events) != (base.res, base.root, base.events):
+                    viol(out, g, data, m, 'outcome depends on verbosity/stream: mode %d gives (%s,%s,%s) but plain run gives (%s,%s,%s)' % (
+                        m, r.res, r.root, r.events[:120], base.res, base.root, base.events[:120]))
+            if rs[6].stream != base.stream: viol(out, g, data, 6, 'user stream text %r differs from std::ostream text %r' % (rs[6].stream[:200], base.stream[:200]))
+            if rs[5].stream != rs[1].stream: viol(out, g, data, 5, 'verbose user stream text differs from verbose std::ostream text')
+            if not lines_subsequence(base.stream, rs[1].stream):
+                viol(out, g, data, 1, 'non-verbose messages %r do not appear unchanged in the verbose text' % base.stream[:200])
+            ex = model.expect(g, tb, data, state_map=inv)
+            if ex.res.hang or (base.res == 1) != ex.ok: continue
+            tr = dg.parse_trace(rs[1].stream)
+            other = [e for e in tr if e[0] == 'other']
+            acts = []
+            for e in tr:
+                if e[0] in ('rec', 'lex', 'unexp'): continue
+                if e[0] == 'sh': acts.append(('sh', e[1], e[2]))
+                elif e[0] == 'red': acts.append(('red', e[1]))
+                elif e[0] == 'syntax': acts.append(('syntax', e[1]))
+                elif e[0] == 'consume': acts.append(('consume', e[1]))
+                elif e[0] == 'leave-cons': continue
+                else: acts.append(tuple(e[:2]) if len(e) > 1 else e)
+            want = [a for a in ex.trace]
+            C['trace_events_observed'] += len(acts)
+            if len(acts) >= 6: out['distinct'].append(common.sha(g.key(), data)[:12])
+            if other:
+                viol(out, g, data, 1, 'unparseable verbose line %r' % (other[0][1][:120],))
+            elif acts != want:
+                k = next((i for i in range(min(len(acts), len(want))) if acts[i] != want[i]), min(len(acts), len(want)))
+                viol(out, g, data, 1, 'verbose trace differs from the actions of the reference driver at event %d: observed %s expected %s' % (
+                    k, acts[k:k + 3], want[k:k + 3]), observed=acts[:60], expected=want[:60])
+            # reductions in the trace == functor log
+            rlog = [int(x) for x in re.findall(r'(?:^|;)[rx](\d+)[\[(]', base.events)]
+            rtrace = [a[1] for a in acts if a[0] == 'red' and g.rules[a[1]].ftor in ('f', 'x')] if all(a[0] != 'red' or a[1] < len(g.rules) for a in acts) else None
+            if rtrace is not None and rlog != rtrace:
+                viol(out, g, data, 1, 'reductions in the verbose trace %s differ from the functor calls %s' % (rtrace[:20], rlog[:20]))
+            # recognised terms: every Recognized line names the pending term at its position
+            recs = [(e[1], e[2], e[3]) for e in tr if e[0] == 'rec']
+            coll = [x for i, x in enumerate(recs) if i == 0 or recs[i - 1] != x]
+            lx = ex.lex; need = ex.res.maxp
+            wantrec = []
+            for p in range(min(need, len(lx.toks) - 1) + 1 if lx.toks else 0):
+                t = lx.toks[p]; wantrec.append((g.tname(t[0]), t[3], t[4]))
+            if need >= len(lx.toks) and lx.lexerr is None: wantrec.append(('<eof>', lx.eof[1], lx.eof[2]))
+            if coll != wantrec:
+                viol(out, g, data, 1, 'recognised terms in the verbose trace %s differ from the terms at those positions %s' % (coll[:6], wantrec[:6]))
+        if len(out['samples']) < 2 and inputs[gi]:
+            r = byk.get((gi, 0, 1))
+            if r: out['samples'].append({'grammar': g.text(), 'input': inputs[gi][0].decode('latin-1'), 'verbose_text': r.stream[:400]})
+
+KIND_OF = {'acc': 1, 'sh': 2, 'red': 4, 'rr': 5, 'sr-red': 4, 'sr-sh': 2}
+def judge_c11(spec, gs, tbs, inputs, diags, dumps, maps, tdiffs, byk, jobs, info, out):
+    C = out['counts']
+    crash_check('C11', gs, jobs, byk, info, out, 'site:parse@crash')
+    for gi, g in enumerate(gs):
+        tb = tbs[gi]; d = diags[gi]; cls = gg.classify(tb)
+        C['grammars'] += 1; C['grammars_' + cls] += 1
+        C['evaluations'] += 1
+        C['states_compared'] += len(tb.states); C['conflict_cells_in_reference'] += len(tb.conflicts)
+        if tb.conflicts or len(tb.states) >= 6: out['distinct'].append(g.key())
+        if d.unparsed:
+            viol(out, g, None, None, 'diagnostic line not understood: %r' % d.unparsed[0][:100])
+        for df in tdiffs[gi]:
+            if df.startswith('acc-conflict'):
+                viol(out, g, None, None, 'reduce/accept conflict not reported: ' + df, extra_keys=['site:state_analyzer::transitions@success-shadows-reduce'])
+            elif df.startswith('ambiguous symbol names'):
+                C['grammars_skipped_ambiguous_names'] += 1
+            else:
+                viol(out, g, None, None, 'diagnostics differ from the reference LR(1) analysis: ' + df, diffs=tdiffs[gi][:10])
+                break
+        # (b) diag text == raw table (hook dump)
+        if gi in dumps and 'dump' in dumps[gi]:
+            dp = dg.parse_dump(dumps[gi]['dump'])
+            K = dp.k; nn = K['nterm_count']
+            names = {}
+            for i, n in enumerate(g.nts): names[n] = i
+            names['##'] = len(g.nts)
+            tn = {g.tname(t): nn + t for t in range(g.T + 2)}
+            for st in d.states:
+                for nm, j in st['goto'].items():
+                    C['cells_checked_against_raw_table'] += 1
+                    cell = dp.cells.get((st['idx'], names.get(nm, -1)))
+                    if cell is None or cell[0] not in (2, 3) or cell[1] != j:
+                        viol(out, g, None, None, 'state %d: diagnostics say goto %d on %s, raw table has %s' % (st['idx'], j, nm, cell))
+                for nm, a in st['act'].items():
+                    C['cells_checked_against_raw_table'] += 1
+                    cell = dp.cells.get((st['idx'], tn.get(nm, -1)))
+                    ok = cell is not None
+                    if ok:
+                        kind, arg, sr = cell
+                        if a[0] == 'sh': ok = kind in (2, 3) and arg == a[1] and not sr
+                        elif a[0] == 'red': ok = kind == 4 and dp.ri[arg][1] == a[1] and not sr
+                        elif a[0] == 'acc': ok = kind == 1
+                        elif a[0] == 'rr': ok = kind == 5
+                        elif a[0] == 'sr-red': ok = kind == 4 and dp.ri[arg][1] == a[1] and sr
+                        elif a[0] == 'sr-sh': ok = kind in (2, 3) and sr
+                    if not ok:
+                        viol(out, g, None, None, 'state %d on %s: diagnostics say %s, raw table has %s' % (st['idx'], nm, a, cell))
+                listed = sum(len(st['goto']) + len(st['act']) for st in d.states if st['idx'] == st['idx'])
+            nonerr = sum(1 for (s_, y), c in dp.cells.items() if c[0] != 0)
+            listed = sum(len(st['goto']) + len(st['act']) for st in d.states)
+            if nonerr != listed:
+                viol(out, g, None, None, 'raw table has %d non-error cells, diagnostics list %d' % (nonerr, listed))
+            if d.header.get('states') != K['state_count'] or len(d.states) != K['state_count']:
+                viol(out, g, None, None, 'state count in diagnostics %s/%d, raw %d' % (d.header.get('states'), len(d.states), K['state_count']))
+        else:
+            C['hook_unavailable'] += 1
+        # (c) the actions a real parse executes are the ones the diagnostics list
+        if not parseable(gi, gs, tbs, diags, tdiffs, need_match=False): continue
+        lib = {s['idx']: s for s in d.states}
+        for idx, data in enumerate(inputs[gi]):
+            r = byk.get((gi, idx, 1))
+            if r is None: continue
+            C['traces_replayed_on_diagnostics'] += 1
+            tr = dg.parse_trace(r.stream)
+            stack = [0]; cur = None; bad = None; rec = False
+            ERRN = '<error_recovery_token>'
+            for e in tr:
+                la = ERRN if rec else cur
+                if e[0] == 'rec': cur = e[1]
+                elif e[0] == 'enter-rec': rec = True
+                elif e[0] == 'leave-rec': rec = False
+                elif e[0] == 'sh':
+                    a = lib[stack[-1]]['act'].get(la)
+                    if a is None or a[0] not in ('sh', 'sr-sh') or (a[0] == 'sh' and a[1] != e[1]):
+                        bad = 'shift to %d on %s in state %d, diagnostics list %s' % (e[1], la, stack[-1], a); break
+                    stack.append(e[1])
+                elif e[0] == 'red':
+                    a = lib[stack[-1]]['act'].get(la)
+                    if a is None or a[0] not in ('red', 'sr-red') or a[1] != e[1]:
+                        bad = 'reduce by %d on %s in state %d, diagnostics list %s' % (e[1], la, stack[-1], a); break
+                    n = len(g.rules[e[1]].rhs) if e[1] < len(g.rules) else 1
+                    if n: del stack[-n:]
+                    pend = g.nts[g.rules[e[1]].lhs]
+                elif e[0] == 'goto':
+                    j = lib[stack[-1]]['goto'].get(pend)
+                    if j != e[1]:
+                        bad = 'go to %d on %s in state %d, diagnostics list %s' % (e[1], pend, stack[-1], j); break
+                    stack.append(e[1])
+                elif e[0] == 'pop':
+                    stack.pop()
+                    if not stack or stack[-1] != e[1]:
+                        bad = 'recovering to state %d but the stack top is %s' % (e[1], stack[-1:]); break
+                elif e[0] == 'acc':
+                    a = lib[stack[-1]]['act'].get(la)
+                    if a != ('acc',): bad = 'success on %s in state %d, diagnostics list %s' % (la, stack[-1], a); break
+                elif e[0] in ('syntax', 'consume'):
+                    a = lib[stack[-1]]['act'].get(la)
+                    if a is not None: bad = '%s on %s in state %d although diagnostics list %s' % (e[0], la, stack[-1], a); break
+            if bad:
+                viol(out, g, data, 1, 'executed action not in the diagnostics: ' + bad)
+        if len(out['samples']) < 2:
+            out['samples'].append({'grammar': g.text(), 'class': cls, 'reference_conflicts': [(k, v['kind'], v['prefer']) for k, v in list(tb.conflicts.items())[:4]],
+                                   'diag_conflict_lines': [(s['idx'], nm, a) for s in d.states for nm, a in s['act'].items() if a[0] in ('rr', 'sr-red', 'sr-sh')][:4]})
+
+JUDGES = {'C01': judge_c01, 'C02': judge_c02, 'C09': judge_c09, 'C10': judge_c10, 'C14': judge_c14, 'C16': judge_c16, 'C11': judge_c11}
